@@ -9,6 +9,7 @@ import itertools
 import re
 import textwrap
 import traceback
+import weakref
 from pathlib import Path
 from types import MappingProxyType
 from typing import (
@@ -378,6 +379,43 @@ def match_template(
     return ()
 
 
+# Name nodes of parsed files that refer to something the file binds itself
+_REBOUND_NAMES = weakref.WeakSet()
+
+
+def _mark_rebound_names(root: ast.Module) -> None:
+    """Remember every name that is read in the file and that the file also binds.
+
+    A call of len(...) is only a call of the builtin len if nothing in the file defines, assigns,
+    imports or takes as a parameter something called len.
+    """
+    bound = set()
+    everything = False
+    for node in ast.walk(root):
+        if isinstance(node, ast.Name) and not isinstance(node.ctx, ast.Load):
+            bound.add(node.id)
+        elif isinstance(node, (ast.FunctionDef, ast.AsyncFunctionDef, ast.ClassDef)):
+            bound.add(node.name)
+        elif isinstance(node, ast.arg):
+            bound.add(node.arg)
+        elif isinstance(node, ast.alias):
+            if node.name == "*":
+                everything = True
+            bound.add((node.asname or node.name).split(".")[0])
+        elif isinstance(node, (ast.Global, ast.Nonlocal)):
+            bound.update(node.names)
+        elif isinstance(node, ast.ExceptHandler) and node.name:
+            bound.add(node.name)
+        elif isinstance(node, (ast.MatchAs, ast.MatchStar)) and node.name:
+            bound.add(node.name)
+        elif isinstance(node, ast.MatchMapping) and node.rest:
+            bound.add(node.rest)
+
+    for node in ast.walk(root):
+        if isinstance(node, ast.Name) and (everything or node.id in bound):
+            _REBOUND_NAMES.add(node)
+
+
 @functools.lru_cache(maxsize=100)
 def parse(source_code: str) -> ast.Module:
     """Parse python source code and cache
@@ -389,7 +427,9 @@ def parse(source_code: str) -> ast.Module:
         ast.AST: Parsed AST
     """
     try:
-        return ast.parse(source_code)
+        root = ast.parse(source_code)
+        _mark_rebound_names(root)
+        return root
     except SyntaxError as error:
         stack_trace = "".join(traceback.format_exception(type(error), error, error.__traceback__))
         source_code_lines = source_code.splitlines(keepends=True)
@@ -1044,7 +1084,11 @@ def _literal_value(node: ast.AST) -> bool:
         return getattr(node_value, node.func.attr)(*args)
 
     if isinstance(node, ast.Call) and not node.keywords:
-        if isinstance(node.func, ast.Name) and node.func.id in constants.PURE_BUILTIN_FUNCTIONS:
+        if (
+            isinstance(node.func, ast.Name)
+            and node.func.id in constants.PURE_BUILTIN_FUNCTIONS
+            and node.func not in _REBOUND_NAMES
+        ):
             args = [literal_value(arg) for arg in node.args]
             return getattr(builtins, node.func.id)(*args)
 
